@@ -60,10 +60,29 @@ def r03a(model, ctx):
         tmpls = [(x, template_of(x.args[0])) for x in ast.walk(meth) if isinstance(x, ast.Call) and
                  isinstance(x.func, ast.Attribute) and x.func.attr == "append" and x.args and template_of(x.args[0]) is not None]
         sk = [t.skeleton() for _, t in tmpls]
-        only_reset = set(sk) <= {"def run():", "pass", "slots[{0}].update({1})"} and "slots[{0}].update({1})" in sk
+        UPD = "slots[{0}].update({1}, {2})"
+        only_reset = set(sk) <= {"def run():", "pass", UPD, "slots[{0}].update({1})"} and (UPD in sk or "slots[{0}].update({1})" in sk)
         guarded = True
+        # the reset loads init through the mask of the bits this domain drives (the clocked process commits the same
+        # signals with `slots[i].update(next_i, mask)`: an unmasked load would clobber bits owned by another domain and
+        # make the result depend on which of the two processes runs last when rst rises together with a clock edge)
+        masked = UPD in sk and "slots[{0}].update({1})" not in sk
         for x, t in tmpls:
-            if t.skeleton() == "slots[{0}].update({1})":
+            if t.skeleton() == UPD:
+                loop = mod.parent(x)
+                while loop is not None and not isinstance(loop, ast.For):
+                    loop = mod.parent(loop)
+                mvar = t.holes[2].src
+                masked = masked and loop is not None and isinstance(loop.target, ast.Tuple) and len(loop.target.elts) == 2 and \
+                    unparse(loop.target.elts[1]) == mvar and unparse(loop.iter).endswith(".masks()")
+                # the same sign extension of the mask as the clocked commit
+                ext = [y for y in ast.walk(loop) if isinstance(y, ast.If) and
+                       unparse(y.test) == f"signal.shape().signed and {mvar} & 1 << len(signal) - 1" and
+                       [unparse(z) for z in y.body] == [f"{mvar} |= -1 << len(signal)"]] if loop is not None else []
+                commit_ext = [y for y in ast.walk(fn) if isinstance(y, ast.If) and
+                              unparse(y.test) == "signal.shape().signed and mask & 1 << len(signal) - 1"]
+                masked = masked and (bool(ext) == bool(commit_ext))
+            if t.skeleton() in (UPD, "slots[{0}].update({1})"):
                 ok_h = t.holes[1].src == "signal.init"
                 q = mod.parent(x)
                 g = False
@@ -84,6 +103,27 @@ def r03a(model, ctx):
                 q = mod.parent(q)
             site_ok = "domain.async_reset" in gt and "domain.rst is not None" in gt and \
                 any(pmatch(f"processes.add(self.{meth.name}(_V_A, _V_B))", y) is not None for y in ast.walk(fn))
+        # the collector handed to the reset process holds the domain's registers only (built from the statements; memory
+        # read port outputs are not resettable: $memrd_v2 has no reset)
+        regs_only = False
+        for y in ast.walk(fn):
+            mm = pmatch(f"processes.add(self.{meth.name}(_V_A, _V_B))", y)
+            if mm is not None and isinstance(mm["_V_B"], ast.Name):
+                cname = mm["_V_B"].id
+                uses = [c_ for c_ in ast.walk(fn) if isinstance(c_, ast.Call) and isinstance(c_.func, ast.Attribute) and
+                        isinstance(c_.func.value, ast.Name) and c_.func.value.id == cname]
+                regs_only = bool(uses) and all(c_.func.attr == "visit_stmt" and [unparse(a) for a in c_.args] == ["domain_stmts"]
+                                               for c_ in uses if c_.func.attr.startswith("visit"))
+        ctx.check(masked, R, f"_FragmentCompiler:async-reset-process:{meth.name}:masked",
+                  "loads init through the collector's mask (sign-extended like the clocked commit)",
+                  f"the asynchronous-reset process must load signal.init with `slots[i].update(init, mask)` using the mask of the "
+                  f"bits its domain drives (extended over the sign like the clocked commit): an unmasked load changes bits driven "
+                  f"from another domain and, when rst rises together with a clock edge, the last process to run wins", f"{PYRTL}:{n.lineno}")
+        ctx.check(regs_only, R, f"_FragmentCompiler:async-reset-process:{meth.name}:registers-only",
+                  "the reset process is given the statement-driven bits only",
+                  f"the collector handed to the asynchronous-reset process must be built from the domain's statements only "
+                  f"(visit_stmt(domain_stmts)); memory read port outputs added with visit_value are not resettable, and "
+                  f"resetting them races with the clocked read", f"{PYRTL}:{n.lineno}")
         ok = sig == "domain.rst" and const_int(p) == 1 and created and only_reset and guarded and site_ok
         ctx.check(ok, R, f"_FragmentCompiler:async-reset-process:{meth.name}",
                   "separate process, woken by rising rst only, loads init into non-reset_less signals only",
